@@ -20,7 +20,7 @@ use std::sync::{Arc, Mutex};
 pub fn def() -> PropDef {
     PropDef {
         id: "C16",
-        rule: "2 threads x scripts of <=3 steps and 3 threads x scripts of <=2 steps over {fail with one of nine messages through seven table entries (raw_name_from_str and rename fail in two ways each; set_raw_name, delete and set_name fail inside an iteration callback), succeed, read description through the thread's last CErr*, look again at the description text retrieved earlier}; every interleaving of the steps (step-level points, unbounded) and, with the library's yield points around the error store enabled, every interleaving with at most 2 preemptions; the same step-level exploration with all threads working on ONE packet handed from thread to thread; each execution runs on real OS threads under a baton scheduler and is compared with the per-thread expectation; distinct classes = (threads, script shapes, own or shared packet, whether a foreign failure lies between a failure and its read)",
+        rule: "1 thread x every script of 3..4 steps (thorough 5); 2 threads x scripts of <=3 steps and 3 threads x scripts of <=2 steps over {fail with one of nine messages through seven table entries (raw_name_from_str and rename fail in two ways each; set_raw_name, delete and set_name fail inside an iteration callback), succeed, read description through the thread's last CErr*, look again at the description text retrieved earlier}; every interleaving of the steps (step-level points, unbounded) and, with the library's yield points around the error store enabled, every interleaving with at most 2 preemptions; the same step-level exploration with all threads working on ONE packet handed from thread to thread; each execution runs on real OS threads under a baton scheduler and is compared with the per-thread expectation; distinct classes = (threads, script shapes, own or shared packet, whether a foreign failure lies between a failure and its read)",
         run,
         replay,
         bounds: |t| json!({"threads": [2, 3], "steps_2_threads": t.pick(3, 4), "steps_3_threads": 2, "preemption_bound_with_library_points": t.pick(2, 3), "max_executions_per_tuple": 20000}),
@@ -30,7 +30,7 @@ pub fn def() -> PropDef {
         nshards: 16,
         post: |rep, _| {
             let mut v = vec![];
-            for need in ["threads=2", "threads=3", "foreign_between=1", "libpoints=1", "shared=1 foreign_between=1"] {
+            for need in ["threads=1", "threads=2", "threads=3", "foreign_between=1", "libpoints=1", "shared=1 foreign_between=1"] {
                 if !rep.classes.keys().any(|k| k.contains(need)) {
                     v.push(format!("no explored execution with {}", need));
                 }
@@ -443,6 +443,18 @@ fn run(ctx: &mut Ctx, rep: &mut Report) {
                 }
                 explore_tuple(ctx, rep, &[a.clone(), b.clone(), c.clone()], false, false, 99, &exp);
             }
+        }
+    }
+    // one thread, longer scripts: a description must survive this thread's own later SUCCESSFUL calls and
+    // re-reads until its next failure (no interleaving to explore: one execution per script)
+    {
+        let n1 = ctx.tier.pick(4, 5);
+        for sc in scripts_upto(n1).into_iter().filter(|s| s.len() >= 3) {
+            gi += 1;
+            if !ctx.mine(gi) || ctx.timed_out() {
+                continue;
+            }
+            explore_tuple(ctx, rep, &[sc], false, false, 99, &exp);
         }
     }
     // 2 and 3 threads working on ONE packet, handed from thread to thread at step boundaries (access to it
